@@ -338,6 +338,16 @@ def virtual_source(u, path, log):
     src = open(full).read()
     if path in u.expand_files:
         src = rsx.expand_invocations(src, u.macros, log)
+        # the definitions of the expanded macros are blanked so that item headers inside a macro
+        # body (`pub enum Definition { $(...)* }`) cannot be mistaken for the expanded item
+        toks = rsx.tokenize(src)
+        ed = rsx.Edits(src)
+        for k in range(len(toks) - 3):
+            if toks[k].text == "macro_rules" and toks[k + 1].text == "!" and toks[k + 2].text in u.macros \
+                    and toks[k + 3].text in rsx.OPEN:
+                cb = rsx.match_close(toks, k + 3)
+                ed.add(toks[k].s, toks[cb].e, "", "R3")
+        src, _ = ed.apply()
     _src_cache[key] = src
     return src
 
@@ -442,6 +452,16 @@ def build_item(u, spec, twin, gen):
         rules.r14_wild_params(text, m, red, kept_fns)
     if "R7" in spec.extra_rules:
         rules.r7_format(text, m, red)
+    # R8: default bodies of trait methods are dropped (the methods become required): a recording
+    # visitor overrides all of them; the traversal code is untouched.
+    if "R8" in spec.extra_rules:
+        for f in kept_fns:
+            if f.has_body:
+                if text[f.body_s:f.body_e].replace(" ", "").replace("\n", "") != "{}":
+                    raise RsxError(f"R8: default body of {f.name} is not empty")
+                red.add(f.body_s, f.body_e, ";", "R8")
+                f.has_body = False
+                f.sig_end = f.body_s
     # R12 anchored regions
     for (anchor, repl, rtag) in spec.rewrites:
         cnt = text.count(anchor)
